@@ -100,6 +100,17 @@ CHECKS = {
              'handles deleted while in use must still correct a device) are checked against an abstract table and the model answers every line it models identically.',
         note='Lean kernel + standard axioms; Model/CalTable.lean hand-written (the first_free invariant of the C is a hypothesis of alloc_fresh); numerics of solve are not part of this model.',
         ref='DESIGN.md §6 C16'),
+    'C12': dict(
+        technique='Lean 4 proof (retry equivalence and invariant preservation of partially completed extensions, on the vnadata model of C15) + exhaustive single-allocation-failure injection over scripted histories of the compiled C',
+        text='Theorems for every object, size and stopping point: what a failed vnadata_resize leaves behind (extensions complete up to the failing stage, the failing one '
+             'arbitrarily far) satisfies the representation invariant, memory grown beyond the recorded allocation is invisible to every getter, and running the extensions '
+             'again gives exactly the object of the call without fault. On the compiled C, for scripted histories over vnadata, vnaproperty (incl. YAML export/import, copy, '
+             'hash growth) and vnacal (T/U/E12 calibrations, vector/unknown/correlated parameters, m-error model, save, load, apply), every allocation index of every call is '
+             'failed once: the call returns its fault-free result or its failure value with ENOMEM, no sanitizer report, the repeated call and the rest of the history give '
+             'exactly the fault-free outputs, nothing remains allocated.',
+        note='Lean kernel + standard axioms; the theorems cover the vnadata allocation discipline only - for vnaproperty and vnacal the decision is the exhaustive injection run '
+             '(every allocation site reached by the scripts, not every history); allocations inside libyaml and libc are not failed.',
+        ref='DESIGN.md §6 C12'),
     'C19': dict(
         technique='Lean 4 proof (partial: recurrences => factorisation => solve, determinant, zero pivot <=> singular) + numeric residual oracle in extended precision + factor check on the C output',
         text='For every n and field: entries satisfying the Crout recurrences give L U = P A; the two substitution recurrences give A X = B; the accumulated '
